@@ -6,32 +6,33 @@
    [doc_mul], [doc_prop], [doc_class_ptype] : generated on every check from the RST tables of
                   wavefront.rst, diffraction.rst, planes.rst (Gen/DocTable.v).
    [documented] : the machine those tables describe (Model/PType.v:doc_machine,
-                  Model/PTypeSpec.v); its two tilt parameters are implementation-defined.
+                  Model/PTypeSpec.v): types, acceptance, exception class and the state a refusal
+                  keeps come from the documentation; the fitted-tilt bit, which the documentation
+                  and the property leave open, is implementation-defined.
    The finite statements quantify over the finite inductive types themselves. *)
 From LV Require Import Model.PTypeSpec Proofs.PTypeP.
 
-(* (a) all 15 cells of "Multiplication rules" (for either value of the tilt bit, which a plain
-   plane leaves alone): documented type, or TypeError with the operand kept *)
+(* (a) all 15 cells of "Multiplication rules", for either value of the tilt bit: the product has the
+   documented type, or is refused with TypeError ([erase] drops the tilt bit, [tdoc w None] is
+   "TypeError, type w kept"; that a refusal keeps the whole state is C08_refused_step_keeps_state) *)
 Theorem C08_mul_table_matches_doc : forall w tl p,
-  observed_mul (St w tl) p =
-  match doc_mul w p with Some t => Yields (St t tl) | None => Raises ETypeError (St w tl) end.
+  erase (observed_mul (St w tl) p) = tdoc w (doc_mul w p).
 Proof. exact mul_table_matches_doc. Qed.
 Print Assumptions C08_mul_table_matches_doc.
 
 (* (a) the propagation rows, both routines *)
 Theorem C08_propagation_matches_doc : forall m w,
-  observed_prop m (St w false) =
-  match doc_prop m w with Some t => Yields (St t false) | None => Raises ETypeError (St w false) end.
+  erase (observed_prop m (St w false)) = tdoc w (doc_prop m w).
 Proof. exact propagation_matches_doc. Qed.
 Print Assumptions C08_propagation_matches_doc.
 
 (* ... and on a wavefront that carries fitted tilt: the same, except that propagate_fft may refuse
    it outright (implementation-defined, observed_fft_refuses_tilt) *)
 Theorem C08_propagation_with_tilt : forall m w,
-  observed_prop m (St w true) =
+  erase (observed_prop m (St w true)) =
   if (match m with Fft => true | Dft => false end) && observed_fft_refuses_tilt
-  then Raises ENotImplementedError (St w true)
-  else match doc_prop m w with Some t => Yields (St t false) | None => Raises ETypeError (St w true) end.
+  then TRaises ENotImplementedError w
+  else tdoc w (doc_prop m w).
 Proof. exact propagation_with_tilt. Qed.
 Print Assumptions C08_propagation_with_tilt.
 
@@ -56,7 +57,7 @@ Proof. exact programs_follow_doc. Qed.
 Print Assumptions C08_programs_follow_doc.
 
 (* (b) the same read on types alone, with no tilt parameter anywhere: programs without
-   propagate_fft from any state, and programs with it that start untilted and use no tilting class *)
+   propagate_fft from any state, and programs with it that start untilted and never attach a tilt *)
 Theorem C08_program_types_follow_tables : forall ops s,
   forallb op_claimed ops = true -> forallb (fun o => negb (is_fft o)) ops = true ->
   map erase (run_program observed s ops) = run_types (ty s) ops.
@@ -109,16 +110,14 @@ Theorem C08_programs_with_rotate_refuted :
 Proof. exact programs_with_rotate_refuted. Qed.
 Print Assumptions C08_programs_with_rotate_refuted.
 
-(* non-vacuity: a claimed program that visits all three types, a refusal of each kind, a tilt and
-   both propagation routines *)
+(* non-vacuity: a claimed program that visits all three types, refusals by the table, a tilt and
+   both propagation routines (types only: the tilt bit is implementation-defined) *)
 Example C08_nonvacuous :
-  let prog := [MulClass KPupil; MulType PImage; MulClass KTilt; Propagate Fft; Propagate Dft;
-               MulClass KImage; MulType PTransform; Propagate Fft; MulClass KPlane] in
+  let prog := [MulClass KPupil; MulType PImage; Propagate Fft; MulClass KTilt; Propagate Dft;
+               MulClass KImage; MulType PTransform; Propagate Dft; MulClass KPlane] in
   forallb op_claimed prog = true /\
-  run_program observed (St WNone false) prog =
-    [Yields (St WPupil false); Raises ETypeError (St WPupil false); Yields (St WPupil true);
-     Raises ENotImplementedError (St WPupil true); Yields (St WImage false);
-     Yields (St WImage false); Yields (St WImage false); Yields (St WPupil false);
-     Raises ETypeError (St WPupil false)] /\
+  map erase (run_program observed (St WNone false) prog) =
+    [TYields WPupil; TRaises ETypeError WPupil; TYields WImage; TYields WImage; TYields WPupil;
+     TRaises ETypeError WPupil; TYields WPupil; TYields WImage; TRaises ETypeError WImage] /\
   run_program documented (St WNone false) prog = run_program observed (St WNone false) prog.
 Proof. repeat split. Qed.
